@@ -394,20 +394,21 @@ func init() {
 			return []*Instance{
 				{Pkg: c, Func: "VH_C17_token", Args: []int64{1}, Unwind: 32},
 				{Pkg: c, Func: "VH_C17_token", Args: []int64{3}, Unwind: 32},
+				{Pkg: c, Func: "VH_C17_header", Args: []int64{2}, Unwind: 32},
 				{Pkg: c, Func: "VH_C17_notoken", Unwind: 32},
 				{Pkg: c, Func: "VH_C17_wiring", Args: []int64{0}, Unwind: 32, EngineOnly: true},
 				{Pkg: c, Func: "VH_C17_wiring", Args: []int64{1}, Unwind: 32, EngineOnly: true},
 				{Pkg: c, Func: "VH_C17_vacuity", Expect: "violated"},
 			}
 		},
-		Covers: map[string][]string{"VH_C17_token": {"end", "accepted", "rejected"}, "VH_C17_notoken": {"end"}, "VH_C17_wiring": {"end", "accepted", "rejected"}},
+		Covers: map[string][]string{"VH_C17_token": {"end", "accepted", "rejected"}, "VH_C17_header": {"end", "accepted", "rejected"}, "VH_C17_notoken": {"end"}, "VH_C17_wiring": {"end", "accepted", "rejected"}},
 		Bounds: map[string]string{
-			"quick":    "configured token of 1 and of 3 arbitrary bytes; presented token absent or arbitrary of 0..n+1 bytes (shorter = prefix-like, equal length, longer = suffix-like; case variants are just other byte values); each of the four protected server types and the KV / Cluster servers; unary and streaming interceptor; the API-server registration closures of cmd.leader and cmd.follower executed with 2-byte arbitrary tokens configured",
+			"quick":    "configured token of 1 and of 3 arbitrary bytes; presented token absent or arbitrary of 0..n+1 bytes (shorter = prefix-like, equal length, longer = suffix-like; case variants are just other byte values); a wholly arbitrary ASCII authorization header value of 0..10 bytes against a 2-byte token with the documented contract as oracle (scheme matched case-insensitively, token exactly); each of the four protected server types and the KV / Cluster servers; unary and streaming interceptor; the API-server registration closures of cmd.leader and cmd.follower executed with 2-byte arbitrary tokens configured",
 			"thorough": "same",
 		},
-		Outside: "the TLS clause (client certificate chains, common name / hostname checks): crypto/tls and crypto/x509 cannot be encoded, and the option logic in security.TLSInfo is not covered by this check; header parsing inside auth.AuthFromMD (third party; modelled as 'a token string or Unauthenticated'); gRPC's dispatch of info.Server; tokens longer than 4 bytes (string equality is length-generic)",
+		Outside: "the TLS clause (client certificate chains, common name / hostname checks): crypto/tls and crypto/x509 cannot be encoded, and the option logic in security.TLSInfo is not covered by this check; non-ASCII header bytes (gRPC transports reject them; unicode case folding tables are not encoded); several authorization values in one request (the first is used); gRPC's dispatch of info.Server; tokens longer than 4 bytes (string equality is length-generic)",
 		Assumptions: []string{
-			"M5: auth.AuthFromMD yields the presented bearer token or an Unauthenticated error",
+			"M5: grpc/metadata.FromIncomingContext returns the request's authorization value (or no metadata); the middleware's metadata wrapper, auth.AuthFromMD and the interceptors are interpreted from source",
 			"wiring harness: viper.GetBool/GetString return the configured values; captured variables of the closures (engine, conn, queue) are opaque; engine-only (no native twin: the closures are not addressable from outside leader()/follower())",
 		},
 	}
@@ -494,5 +495,35 @@ func init() {
 		},
 		Outside: "production of the stream on the leader (commandSnapshot over a pinned Pebble snapshot: point-in-time is Pebble's snapshot isolation, model M1), the chunk transport and file framing (C18), Manager.Restore's shard start / leader wait / catalogue switch (C14), retry timing, the backup manifest's md5 check, large values",
 		Assumptions: []string{"M1, M2 (proposals applied by the real FSM.Update), backoff.Retry calls the proposal at most twice", "one Read call of the source delivers one record (snapshotFile.Read contract, C18)"},
+	}
+	props["C05"] = &Property{
+		Title: "follower equals leader at its recorded leader index",
+		Instances: func(tier string) []*Instance {
+			rp := "replication"
+			r := []*Instance{
+				{Pkg: rp, Func: "VH_C05_round", Args: []int64{0, 1, 1, 1, 14}, Unwind: 64},
+				{Pkg: rp, Func: "VH_C05_round", Args: []int64{1, 4, 1, 1, 14}, Unwind: 64},
+				{Pkg: rp, Func: "VH_C05_round", Args: []int64{2, 2, 0, 1, 7}, Unwind: 64},
+				{Pkg: rp, Func: "VH_C05_vacuity", Expect: "violated"},
+			}
+			if tier == "thorough" {
+				r = append(r, &Instance{Pkg: rp, Func: "VH_C05_round", Args: []int64{2, 2, 0, 1, 14}, Unwind: 64},
+					&Instance{Pkg: rp, Func: "VH_C05_round", Args: []int64{2, 4, 1, 1, 7}, Unwind: 64})
+			}
+			return r
+		},
+		Covers: map[string][]string{"VH_C05_round": {"end", "completed"}},
+		Bounds: map[string]string{
+			"quick":    "one replication round (real worker.do + proposeBatch pulling from the real LogServer.Replicate over logreader.Simple): leader table in an arbitrary state (0..1 pairs of 1-byte arbitrary key/value) at an arbitrary index L (1 <= L < 2^14, so one- and two-byte varints and the step between them) with the log compacted up to L; follower with the same content, recorded leader index L and an unrelated own index; the leader then applies m commands: m=0; m=1 of 4 kinds (put, delete, range delete, non-idempotent transaction / dummy as generated by vhArbCommand); m=2 of 2 kinds with L < 2^7; arbitrary 64-bit message-size limit (0 = default), so the stream is cut at every position; the stream deadline may pass on the server at any loop iteration (symbolic clock); oracle: follower content == leader content at exactly the follower's recorded leader index, which is one the leader produced and never moves backwards, and a completed round ends at the leader's applied index with result 'tailing'",
+			"thorough": "quick + m=2 with L < 2^14, and m=2 of 4 kinds over a table with 0..1 pairs",
+		},
+		Outside: "the 256 KiB proposal-size cut inside proposeBatch (needs values of hundreds of KiB; only the end-of-message cut is reached); the lease/queue scheduling around do() (worker.Start loop, timers, metrics); snapshot recovery when the leader log is ahead (USE_SNAPSHOT path: asserted unreachable here, covered for content by C07); gRPC transport (the stream is an in-memory marshal/unmarshal copy of each message); more than 2 new commands per round; Cached log reader in this round (C06 covers the reader itself); leader-side concurrency (new entries applied while streaming)",
+		Assumptions: []string{
+			"M2: the leader table is its real state machine behind a totally ordered log written in the harness (SyncPropose applies and appends an EncodedEntry with a one-byte header, as dragonboat does for uncompressed proposals); the follower is the NodeHost model around the real FSM",
+			"dragonboat log reader contract as in C06 (vhLog)",
+			"context deadlines: WithTimeout's deadline is an instant of the symbolic monotone clock plus the timeout; time.Now() may jump arbitrarily forward",
+			"protohelpers.SizeOfVarint summarised by a case split on the 7-bit class of its argument (equivalent to the library source)",
+			"metrics calls are no-ops; float conversions of symbolic integers flow only into them",
+		},
 	}
 }
